@@ -337,10 +337,14 @@ def _xfilter(accumulator, test_range, condition, operating_range):
 
     from .operators import _get_type_id
     type_id, operator = _get_type_id(condition), LOGIC_OPERATORS[operator]
+    if type_id == 1:  # Text is compared ignoring the case.
+        condition = condition.upper()
 
     @functools.lru_cache(typed=True)
     def check(value):
-        return _get_type_id(value) == type_id and operator(value, condition)
+        if _get_type_id(value) != type_id:
+            return False
+        return operator(value.upper() if type_id == 1 else value, condition)
 
     if is_number(condition):
         if 'num' not in test_range:
